@@ -16,7 +16,7 @@ from ..pyexpr import ExprTr, emit_def, find_function, parse_file
 
 SUB = "direct/common/subsample.py"
 GAUSS_PYX = "direct/common/_gaussian.pyx"
-MB = ("DirectVerif.Model.MaskBudget", "DirectVerif.Model.C07Bisect")
+MB = ("DirectVerif.Model.MaskBudget", "DirectVerif.Model.C07Bisect", "DirectVerif.Model.C07Circus")
 
 MM = ("DirectVerif.Model.C07Magic",)
 MAGIC = "MagicMaskFunc.mask_func"
@@ -62,8 +62,9 @@ class RatTr:
 
     ROUND = {"round", "np.round", "np.around", "numpy.round", "numpy.around"}
 
-    def __init__(self, binds: dict[str, str]):
+    def __init__(self, binds: dict[str, str], floor_int: bool = False):
         self.binds = binds
+        self.floor_int = floor_int
 
     def rat(self, node: ast.AST) -> str:
         text = ast.unparse(node)
@@ -90,7 +91,13 @@ class RatTr:
         if isinstance(node, ast.Call):
             f = ast.unparse(node.func)
             if f == "int" and len(node.args) == 1 and not node.keywords:
-                return self.int(node.args[0])
+                try:
+                    return self.int(node.args[0])
+                except Untranslatable:
+                    if not self.floor_int:
+                        raise
+                    # `int(x)` of a positive quotient: truncation = floor
+                    return f"(Rat.floor {self.rat(node.args[0])})"
             if f in self.ROUND and len(node.args) == 1 and not node.keywords:
                 return f"(MaskBudget.roundHalfEven {self.rat(node.args[0])})"
         raise Untranslatable(f"integer expression `{ast.unparse(node)}`")
@@ -116,6 +123,9 @@ FALLBACK = {
     "equispaced_arange_step": (["off", "N", "a"], "Rat", "a"),
     "gaussian1d_request": (["N", "R", "L"], "Int", "MaskBudget.gaussianRequest (N / R) (L.floor)"),
     "gaussian2d_request": (["rows", "cols", "R", "L"], "Int", "MaskBudget.gaussianRequest (rows * cols / R) (L.floor)"),
+    "circus_M_radial": (["prod", "a", "maxd", "mind"], "Int", "MaskBudget.circusM prod a maxd mind"),
+    "circus_M_spiral": (["prod", "a", "maxd", "mind"], "Int", "MaskBudget.circusM prod a maxd mind"),
+    "circus_adjusted_accel": (["rows", "cols", "R", "L"], "Rat", "MaskBudget.adjAccel (rows * cols) R L"),
     "magic_target": (["N", "R"], "Int", "MaskBudget.roundHalfEven (N / R)"),
     "magic_adjusted": (["N", "rest"], "Int", "if rest > 0 then MaskBudget.roundHalfEven (N / rest) else 0"),
 }
@@ -185,6 +195,15 @@ def _build(tree) -> dict[str, tuple[list[str], str, str]]:
         return ["rows", "cols", "R", "L"], "Int", static
 
     attempt("gaussian2d_request", g2)
+
+    cb = {"np.prod(shape)": "prod", "acceleration": "a", "max_dim": "maxd", "min_dim": "mind"}
+    for nm, meth in (("circus_M_radial", "CIRCUSMaskFunc.circus_radial_mask"), ("circus_M_spiral", "CIRCUSMaskFunc.circus_spiral_mask")):
+        attempt(nm, lambda meth=meth: (["prod", "a", "maxd", "mind"], "Int",
+                                       RatTr(cb, floor_int=True).int(find_assign(_method(tree, meth), "M").value)))
+    attempt("circus_adjusted_accel",
+            lambda: (["rows", "cols", "R", "L"], "Rat",
+                     RatTr({"num_rows": "rows", "num_cols": "cols", "acceleration": "R", "num_low_freqs": "L"}).rat(
+                         find_assign(_method(tree, "CIRCUSMaskFunc.mask_func"), "adjusted_accel").value)))
 
     mag = lambda: _method(tree, MAGIC)  # noqa: E731
     attempt("magic_target", lambda: (["N", "R"], "Int",
